@@ -2852,3 +2852,79 @@ fn calc_ol_prefix_size<D: TextDecorator>(start: i64, num_items: usize, decorator
     let prefix_width_max = decorator.ordered_item_prefix(max_number).len();
     max(prefix_width_min, prefix_width_max)
 }
+
+/// Verification hooks (only built with `--cfg html2text_verif`): expose the parsed DOM
+/// and the render tree's estimate caches to an external checking harness.
+#[cfg(html2text_verif)]
+pub mod verif {
+    use crate::markup5ever_rcdom::{Handle, NodeData};
+
+    /// A plain copy of a DOM node.
+    #[derive(Debug, Clone, PartialEq, Eq)]
+    pub enum VerifNode {
+        /// An element: (is HTML namespace, local name, attributes, children)
+        Elem(bool, String, Vec<(String, String)>, Vec<VerifNode>),
+        /// A text node
+        Text(String),
+        /// A comment
+        Comment,
+        /// Doctype or processing instruction
+        Other,
+    }
+
+    fn dump(handle: &Handle) -> VerifNode {
+        match &handle.data {
+            NodeData::Document => VerifNode::Other,
+            NodeData::Doctype { .. } | NodeData::ProcessingInstruction { .. } => VerifNode::Other,
+            NodeData::Text { contents } => VerifNode::Text(contents.borrow().to_string()),
+            NodeData::Comment { .. } => VerifNode::Comment,
+            NodeData::Element { name, attrs, .. } => VerifNode::Elem(
+                name.ns == ns!(html),
+                name.local.to_string(),
+                attrs
+                    .borrow()
+                    .iter()
+                    .map(|a| (a.name.local.to_string(), a.value.to_string()))
+                    .collect(),
+                handle.children.borrow().iter().map(dump).collect(),
+            ),
+        }
+    }
+
+    /// Dump the children of the document node of a parsed DOM.
+    pub fn verif_dump_dom(dom: &crate::RcDom) -> Vec<VerifNode> {
+        dom.document.children.borrow().iter().map(dump).collect()
+    }
+
+    /// Count the size-estimate cache cells of a render tree which are filled.
+    pub fn verif_cache_count(tree: &crate::RenderTree) -> usize {
+        fn cell(c: &crate::RenderTableCell) -> usize {
+            (c.size_estimate.get().is_some() as usize)
+                + c.content.iter().map(node).sum::<usize>()
+        }
+        fn node(n: &crate::RenderNode) -> usize {
+            use crate::RenderNodeInfo::*;
+            let own = n.size_estimate.get().is_some() as usize;
+            own + match &n.info {
+                Text(_) | Img(_, _) | Break | FragStart(_) => 0,
+                Container(v) | Link(_, v) | Em(v) | Strong(v) | Strikeout(v) | Code(v)
+                | Block(v) | Header(_, v) | Div(v) | BlockQuote(v) | Ul(v) | Ol(_, v) | Dl(v)
+                | Dt(v) | Dd(v) | ListItem(v) | Sup(v) => v.iter().map(node).sum::<usize>(),
+                Table(t) => {
+                    (t.size_estimate.get().is_some() as usize)
+                        + t.rows
+                            .iter()
+                            .map(|r| r.cells.iter().map(cell).sum::<usize>())
+                            .sum::<usize>()
+                }
+                TableBody(rows) => rows
+                    .iter()
+                    .map(|r| r.cells.iter().map(cell).sum::<usize>())
+                    .sum::<usize>(),
+                TableRow(r, _) => r.cells.iter().map(cell).sum::<usize>(),
+                TableCell(c) => cell(c),
+            }
+        }
+        node(&tree.0)
+    }
+}
